@@ -169,7 +169,7 @@ Fixpoint format_loop (g : nat) (out : bytes) (readonly nlnext : bool) : M bytes 
   end.
 
 Definition format (input : bytes) : pres bytes :=
-  let n := length input + 3 in
+  let n := length input + margin in
   let results := next_results n {| buf := {| rest := input; lastByte := None; lastRune := None; failing := false |}; errs := [] |} in
   format_loop (2 * n + 8) [] false false {| rs := results; cur := tok0; keep := false; perrs := [] |}.
 
